@@ -539,13 +539,34 @@ pub fn enc_plain(fmt: Fmt, size: EncSize, input: &[u8]) -> (V, Vec<u8>) {
 pub struct StreamH {
     pub s: Option<Stream<TestSink>>,
     pub sink: TestSink,
+    /// (graph explorers only) every op applied so far, shared with the watchdog: a call that does not return is
+    /// reported with the exact op list that reaches it
+    log: Option<std::sync::Arc<crate::common::StreamLog>>,
 }
 impl StreamH {
     pub fn new(opts: &Opts, sk: &Sk) -> Self {
         let sink = TestSink::new(sk);
         // default options and a plain sink: the constructor without options
         let s = if opts.is_default() && sk.is_plain() { Stream::new(sink.clone()) } else { Stream::new_with_options(&opts.to_lib(), sink.clone()) };
-        StreamH { s: Some(s), sink }
+        StreamH { s: Some(s), sink, log: None }
+    }
+    /// Like `new`, with the op log for the watchdog (not used under run_case, whose heap figures must not see the log).
+    pub fn new_logged(opts: &Opts, sk: &Sk) -> Self {
+        let mut h = StreamH::new(opts, sk);
+        h.log = Some(std::sync::Arc::new(crate::common::StreamLog { opts: *opts, sk: sk.clone(), ops: std::sync::Mutex::new(Vec::new()) }));
+        h
+    }
+    pub fn apply(&mut self, op: &SOp) -> OpObs {
+        match self.log.clone() {
+            None => self.apply_inner(op),
+            Some(l) => {
+                l.ops.lock().unwrap().push(op.clone());
+                crate::common::slot_enter_stream(&l);
+                let r = self.apply_inner(op);
+                slot_leave();
+                r
+            }
+        }
     }
     pub fn sink_len(&self) -> usize {
         self.sink.st.borrow().data.len()
@@ -553,7 +574,7 @@ impl StreamH {
     pub fn sink_bytes(&self) -> Vec<u8> {
         self.sink.st.borrow().data.clone()
     }
-    pub fn apply(&mut self, op: &SOp) -> OpObs {
+    fn apply_inner(&mut self, op: &SOp) -> OpObs {
         let (v, n) = match op {
             SOp::Write(d) => {
                 let s = self.s.as_mut().expect("stream already finished");
